@@ -5,7 +5,7 @@ C13_UNITS = CORE + ["FileManager/TypeNames.cc"]
 def _c13_mut_count(base):
     nv, ne, nf, nc = BASE_COUNTS[base]
     return nv + ne + nf + nc + 15
-def _c13_shards(types, kinds, bases, pends, chunks=None, per=6):
+def _c13_shards(types, kinds, bases, pends, chunks=None, per=2):
     out = []
     for t in types:
         for k in kinds:
@@ -19,22 +19,22 @@ _C13_BOUNDS = ("source = base mesh (B_LOWDIM: 5V/5E/1F with a dangling and a dup
                "with 0-1 pending deferred deletion, symbolic vertex positions (Vec3i), shared int 's', private anonymous bool, persistent int 'p' and bool 'q' vertex properties "
                "with symbolic values, all handles held; target of kind 2 = B_TRI2 with its own shared 's', persistent 'p', private properties and held handles. After the copy: "
                "observable snapshot/counts/flags/modes/positions equal, bottom-up oracle of the copy at symbolic probes (level 1 in chunk 0, level 0 otherwise), persistent clones "
-               "with equal values (symbolic probe), non-persistent not findable; then ONE mutation on either side, selector-dispatched 6 per query over: delete_vertex/edge/face/cell of "
+               "with equal values (symbolic probe), non-persistent not findable; then ONE mutation on either side, selector-dispatched 2 per query over: delete_vertex/edge/face/cell of "
                "EVERY entity, add_vertex, add_edge (new and duplicate), swap_vertex/edge/face/cell_indices (first/last, one more vertex pair), collect_garbage, clear(), "
                "symbolic-index symbolic-value writes to the persistent int / persistent bool / shared / private property, a symbolic position write; the other side's "
                "snapshot, registry counts, persistent values and (for the source) non-persistent values are unchanged; held handles sized to their own mesh and written through")
 PROPS["C13"] = dict(
   jobs=[
-    dict(name="c13-indep", harness="C13_copy.cpp", entries=["harness_c13"], units=C13_UNITS, unwind=26, eh=False, checks="mem", object_bits=13, witness_any=True,
-         shards={"quick": _c13_shards([0, 1], [0, 2], [B_LOWDIM], [1]),
-                 "thorough": _c13_shards([0, 1], [0, 1, 2, 4], [B_LOWDIM], [0, 1, 2]) + _c13_shards([0, 1], [0, 2], [B_TET], [0, 1, 2])},
+    dict(name="c13-indep", harness="C13_copy.cpp", entries=["harness_c13"], units=C13_UNITS, unwind=26, unwindset=["strlen.0:64", "bcmp.0:64"], eh=False, checks="mem", object_bits=13, witness_any=True,
+         shards={"quick": _c13_shards([1], [0, 2], [B_LOWDIM], [1]),
+                 "thorough": _c13_shards([0, 1], [0, 2], [B_LOWDIM], [0, 1, 2]) + _c13_shards([0, 1], [1, 4], [B_LOWDIM], [1]) + _c13_shards([1], [0, 2], [B_TET], [1])},
          timeout={"quick": 300, "thorough": 1200}, mem_gb=6,
-         bounds=_C13_BOUNDS + "; quick: copy construction and assignment onto a non-empty mesh, B_LOWDIM with one pending deleted edge, both mesh types"),
-    dict(name="c13-kinds", harness="C13_copy.cpp", entries=["harness_c13"], units=C13_UNITS, unwind=26, eh=False, checks="mem", object_bits=13, witness_any=True,
-         shards={"quick": _c13_shards([0, 1], [1, 3, 4], [B_LOWDIM], [0], chunks=[0]),
+         bounds=_C13_BOUNDS + "; quick: geometry kernel (its copy/assignment runs TopologyKernel's and ResourceManager's), copy construction and assignment onto a non-empty mesh, B_LOWDIM with one pending deleted edge; thorough: both mesh types, pending deletion none/edge/vertex, + assignment onto an empty mesh and copy of a copy, + B_TET (geometry kernel)"),
+    dict(name="c13-kinds", harness="C13_copy.cpp", entries=["harness_c13"], units=C13_UNITS, unwind=26, unwindset=["strlen.0:64", "bcmp.0:64"], eh=False, checks="mem", object_bits=13, witness_any=True,
+         shards={"quick": _c13_shards([0, 1], [1, 3, 4], [B_LOWDIM], [0], chunks=[0]) + _c13_shards([0], [0, 2], [B_LOWDIM], [1], chunks=[0]),
                  "thorough": _c13_shards([0, 1], [1, 3, 4], [B_TET], [1], chunks=[0]) + _c13_shards([0, 1], [3], [B_LOWDIM], [1, 2], chunks=[0])},
          timeout={"quick": 300, "thorough": 1200}, mem_gb=6,
-         bounds=_C13_BOUNDS + "; assignment onto an empty mesh, self-assignment, copy of a copy (intermediate destroyed before the checks): equality checks + first chunk of mutations (delete_vertex of every vertex, first edge)"),
+         bounds=_C13_BOUNDS + "; assignment onto an empty mesh, self-assignment, copy of a copy (intermediate destroyed before the checks): equality checks + first chunk of mutations (delete_vertex of vertices 0 and 1); quick also runs that chunk for the plain TopologyKernel with copy construction / assignment onto a non-empty mesh"),
   ],
   assumptions=[
     "heap address order = allocation order (rt.c v_plt), std::make_shared control block typed as {refcounts, T}, std::string SSO buffer as 16 bytes, __libc_single_threaded = 1 (see C14)",
